@@ -144,8 +144,11 @@ public:
     record* entry=pop(data_list);
     if(!entry) //no cached memory available
       return(T());
+    //copy the payload out before the record is made available for reuse; once
+    //it is on the free list another thread's insert may overwrite it
+    T result=*entry;
     push(free_list,entry);
-    return(*entry);
+    return(result);
   }
 };
   
